@@ -74,6 +74,28 @@ def classify_C02(h, res, f):
     return None
 
 
+def classify_update_unindexed(h, res, f):
+    """known finding C01-update-of-unindexed-name, decided from the inputs: an operation-level update of a path that is
+    not a live entry of the tree observed before that call, at or before the deviating call"""
+    import posixpath
+    for i, c in enumerate(h["calls"][:f["i"] + 1]):
+        if c["op"] != "update" or i == 0:
+            continue
+        prev = None
+        for r in reversed(res[:i]):
+            o = r.get("obs") or {}
+            if "tree" in o:
+                prev = set(e["path"] for e in o["tree"])
+                break
+        if prev is None:
+            continue
+        for fl in c.get("files", []):
+            p = posixpath.normpath("/" + fl["path"].lstrip("/"))
+            if p not in prev:
+                return "C01-update-of-unindexed-name"
+    return None
+
+
 def fs_differential(ctx, data):
     """Correspondence M1 <-> implementation over the stream (cached per tree/seed/tier)."""
     import hist, streams
@@ -161,7 +183,7 @@ def fs_property(ctx, pid, module, theorems, oracle, classify=None, needs_ref=Fal
 
 def check_C01(ctx):
     import oracles
-    fs_property(ctx, "C01", "C01", ["C01_rebuild_ignores_index", "C01_rebuild_prefix_stable", "C01_rows_rebuilt_are_live_rows", "C01_excluded_corners", "C01_demo"], oracles.c01)
+    fs_property(ctx, "C01", "C01", ["C01_rebuild_ignores_index", "C01_rebuild_prefix_stable", "C01_rows_rebuilt_are_live_rows", "C01_excluded_corners", "C01_demo"], oracles.c01, classify=classify_update_unindexed)
 
 
 def check_C02(ctx):
@@ -171,7 +193,7 @@ def check_C02(ctx):
 
 def check_C04(ctx):
     import oracles
-    fs_property(ctx, "C04", "C04", ["C04_pos_arith", "C04_pos_unique", "C04_branches_dead", "C04_positions_stable", "C04_positions_wf", "C04_lastknown_not_before_content"], oracles.c04)
+    fs_property(ctx, "C04", "C04", ["C04_pos_arith", "C04_pos_unique", "C04_branches_dead", "C04_positions_stable", "C04_positions_wf", "C04_lastknown_not_before_content"], oracles.c04, classify=classify_update_unindexed)
 
 
 def check_C05(ctx):
